@@ -73,6 +73,16 @@ Proof. exact close_future_never_started_refuted. Qed.
 Theorem C07_all_closed_at_rest_refuted : ~ all_closed_at_rest.
 Proof. exact all_closed_at_rest_refuted. Qed.
 
+(** What was wrong before the repair of H30 (cabaa94): the CLOSE of a [close()] future answered
+    with EINTR (the descriptor is closed all the same) was submitted again; once the number has
+    been handed out again, the second CLOSE takes the new owner's descriptor. *)
+Theorem C07_close_restarted_after_eintr_h30_refuted :
+  let s1 := fst (run step (init 4 0) h30_history_a) in
+  let s2 := fst (run step (restart_close_h30 s1 0) h30_history_b) in
+  let s2' := fst (run step s1 h30_history_b) in
+  closed s1 = [(5, Regular)] /\ bad s2 <> [] /\ bad s2' = [].
+Proof. exact close_restarted_after_eintr_h30_refuted. Qed.
+
 Check C07_fd_word_roundtrip : fd_word_roundtrip.
 Check C07_close_encoding : close_encoding.
 Check C07_descriptor_closed_exactly_once : descriptor_closed_exactly_once.
@@ -152,3 +162,4 @@ Print Assumptions C07_all_closed_at_rest_refuted.
 Print Assumptions C07_pipe_fallback_wraps_regular.
 Print Assumptions C07_pipe_fallback_only_in_poll.
 Print Assumptions C07_pipe_fallback_requested_kind_refuted.
+Print Assumptions C07_close_restarted_after_eintr_h30_refuted.
